@@ -432,7 +432,7 @@ Proof.
   - intros i _. destruct (H i) as (Hs&_&Hr&Hc&Hst&Hd&_).
     unfold GraphInvariant.Rest, L1, GraphInvariant.Lcur, GraphInvariant.Lclean. rewrite getn_init0, Hs, Hr.
     split; [reflexivity|]. split.
-    { unfold uncached_ok. destruct (decl_of p i); auto. }
+    { unfold uncached_ok. destruct (decl_of p i); auto. cbn. split; [auto|intros v Hv; discriminate]. }
     split; [intros _ x v []|]. split; [intros _ x v []|].
     unfold GraphInvariant.will_run, will_run_n. rewrite getn_init0.
     destruct (decl_of p i) eqn:Hdi; cbn; try contradiction.
